@@ -138,7 +138,7 @@ Proof.
 Qed.
 
 (* ---------------------------------------------------------------- the property theorem *)
-Definition null_border : border := mkb Snone 0 0.
+Definition null_border : border := mkb Snone 0 0%Z.
 Definition map_border (c : border) : border := mkb (style_map (b_style c)) (b_width c) (b_color c).
 
 Theorem border_conflict_winner (cs : list border) :
@@ -247,11 +247,11 @@ Qed.
 
 (* ---------------------------------------------------------------- examples *)
 Example winner_example :
-  snd (resolve_edge (map ESet [mkb Ssolid 2 1; mkb Sdashed 3 2; mkb Sdouble 3 3; mkb Sdouble 3 4; mkb Sinset 1 5]))
-  = mkb Sdouble 3 3.
+  snd (resolve_edge (map ESet [mkb Ssolid 2 1%Z; mkb Sdashed 3 2%Z; mkb Sdouble 3 3%Z; mkb Sdouble 3 4%Z; mkb Sinset 1 5%Z]))
+  = mkb Sdouble 3 3%Z.
 Proof. reflexivity. Qed.
 Example winner_hidden :
-  snd (resolve_edge (map ESet [mkb Ssolid 2 1; mkb Shidden 0 2; mkb Sdouble 9 3])) = mkb Shidden 0 2.
+  snd (resolve_edge (map ESet [mkb Ssolid 2 1%Z; mkb Shidden 0 2%Z; mkb Sdouble 9 3%Z])) = mkb Shidden 0 2%Z.
 Proof. reflexivity. Qed.
-Example wf_example : Forall wf [mkb Ssolid 2 1; mkb Shidden 0 2; mkb Sdouble 9 3; mkb Snone 0 7].
+Example wf_example : Forall wf [mkb Ssolid 2 1%Z; mkb Shidden 0 2%Z; mkb Sdouble 9 3%Z; mkb Snone 0 7%Z].
 Proof. repeat constructor; simpl; try lra; intros [H|H]; try discriminate; reflexivity. Qed.
